@@ -375,7 +375,7 @@ def pinnedShell : List Use := [
   ⟨"app.App.commitor", "be77335cc296"⟩,
   ⟨"app.App.infoServer", "65fd350ed923"⟩,
   ⟨"app.App.txChecker", "dc9d37957479"⟩,
-  ⟨"app.App.txDeliverer", "435828573be7"⟩
+  ⟨"app.App.txDeliverer", "75d25ada01a4"⟩
 ]
 
 def pinnedLedger : List Use := [
